@@ -155,6 +155,77 @@ theorem fullSynced_step (s : State) (op : Op) :
   cases op <;> simp only [step, push, broadcast, fullSync, streamFull, heartbeat, attach, deliver, disconnect]
   all_goals ((repeat' split) <;> (try simp_all) <;> (try omega))
 
+/-! ### the standby's connection loop -/
+
+theorem loopRun_append (pc : Pc) (a b : List LoopEv) :
+    loopRun pc (a ++ b) = (loopRun pc a).bind fun pc' => loopRun pc' b := by
+  induction a generalizing pc with
+  | nil => simp [loopRun]
+  | cons e rest ih =>
+    simp only [List.cons_append, loopRun]
+    cases loopStep pc e with
+    | none => simp
+    | some pc' => simp [ih]
+
+/-- Every (re)establishment of the stream is immediately preceded by a successful full sync: in every run of
+    `standbyLoop`, from its start, each `streamOk` comes right after a `syncOk` — never after a failed stream
+    attempt, the end of a stream or a back-off without a fresh snapshot in between. -/
+theorem stream_established_only_after_fresh_snapshot (evs pre post : List LoopEv) (pc : Pc)
+    (hrun : loopRun .top evs = some pc) (hsplit : evs = pre ++ .streamOk :: post) :
+    ∃ pre', pre = pre' ++ [.syncOk] := by
+  subst hsplit
+  rw [loopRun_append] at hrun
+  cases h1 : loopRun .top pre with
+  | none => simp [h1] at hrun
+  | some pc1 =>
+    simp only [h1, Option.bind_some, loopRun] at hrun
+    -- the stream request is only issued from `afterSync`
+    have hpc : pc1 = .afterSync := by
+      cases pc1 <;> simp [loopStep] at hrun
+      rfl
+    subst hpc
+    -- and `afterSync` is only entered by `syncOk`
+    rcases List.eq_nil_or_concat pre with hnil | ⟨pre', e, hcat⟩
+    · subst hnil; simp [loopRun] at h1
+    · subst hcat
+      rw [List.concat_eq_append] at h1 ⊢
+      refine ⟨pre', ?_⟩
+      rw [loopRun_append] at h1
+      cases h2 : loopRun .top pre' with
+      | none => simp [h2] at h1
+      | some pc2 =>
+        simp only [h2, Option.bind_some, loopRun] at h1
+        have : e = .syncOk := by
+          cases pc2 <;> cases e <;> simp [loopStep] at h1
+          rfl
+        rw [this]
+
+/-- … and in terms of the data model: what the loop does to the standby between two stream establishments always
+    contains a snapshot, so the stream is attached with `fullSynced` set. -/
+theorem loop_attach_has_snapshot (evs : List LoopEv) (pc : Pc) (hrun : loopRun .top evs = some pc)
+    (hpc : pc = .streaming) : ∃ pre, evs = pre ++ [.syncOk, .streamOk] := by
+  subst hpc
+  rcases List.eq_nil_or_concat evs with hnil | ⟨pre, e, hcat⟩
+  · subst hnil; simp [loopRun] at hrun
+  · subst hcat
+    rw [List.concat_eq_append] at hrun ⊢
+    have he : e = .streamOk := by
+      rw [loopRun_append] at hrun
+      cases h2 : loopRun .top pre with
+      | none => simp [h2] at hrun
+      | some pc2 =>
+        simp only [h2, Option.bind_some, loopRun] at hrun
+        cases pc2 <;> cases e <;> simp [loopStep] at hrun
+        rfl
+    subst he
+    obtain ⟨pre', hp⟩ := stream_established_only_after_fresh_snapshot (pre ++ [.streamOk]) pre [] .streaming hrun (by simp)
+    exact ⟨pre', by rw [hp]; simp⟩
+
+example : loopRun .top [.syncOk, .streamFail, .wake, .syncOk, .streamOk, .streamEnd, .wake, .syncFail, .wake, .syncOk,
+    .streamOk] = some .streaming := by decide
+-- what the seeded change C13f does (stream retried without a snapshot) is not a run of the loop
+example : loopRun .top [.syncOk, .streamFail, .wake, .streamOk] = none := by decide
+
 /-! ### recorded findings, proved on the model -/
 
 def cfg1 : Cfg := { capC := 1, capP := 1000 }
@@ -192,6 +263,16 @@ theorem D43_stream_witness :
 theorem D43_heartbeat_witness :
     let s := run (init cfg1) [.fullSync, .attach, .heartbeat, .add 1 1, .broadcast, .deliver]
     Quiescent s ∧ excl_D43 s 1 = true ∧ lookup s.store 1 = none ∧ lookup s.table 1 = some 1 := by
+  decide
+
+/-- KF-ha-push-race (outside the single-writer assumption under which every theorem above is stated): the caller's
+    store write and `PushChange` are two separate steps, and `PushChange` takes its sequence number before it
+    enqueues.  Two concurrent writers of one session — put(7) then delete in store order, delete then update in
+    queue order — leave the active without the session and the standby, which applies in queue order and never
+    reads the sequence number, with it.  Reproduced on the real code by harness/cmd/pushstress. -/
+theorem KF_push_race_witness :
+    lookup (AMap.erase (AMap.insert ([] : Table) 1 7) 1) 1 = none ∧
+    lookup (applyMsg (applyMsg ([] : Table) ⟨2, .delete, 1, 0⟩) ⟨1, .update, 1, 7⟩) 1 = some 7 := by
   decide
 
 /-! non-vacuity: the hypotheses of the partial theorems are satisfiable together, on a history that
